@@ -9,6 +9,7 @@ int FB_SEG(const struct SYM* self, int view, int seg) { struct VS c; c.view_num 
 #include "K_get_related.c"
 #include "K_is_basic.c"
 #include "K_find_basic_vs_nums_in_subset.c"
+#include "K_randomly_permute_subset_order.c"
 #include "K_get_subset_num.c"
 #include "K_balanced_count.c"
 #include "K_ir_reconstruct_loop.c"
@@ -38,7 +39,8 @@ void h_K_find_basic_vs_nums_in_subset(void)
   g_view = nondet_int(); g_seg = nondet_int(); g_isbasic = nondet_bool(); out_n = 0; out_ghost = 0;
   K_find_basic_vs_nums_in_subset(p, nondet_int(), nondet_int(), nondet_int(), nondet_int());
 }
-void h_K_get_subset_num(void) { struct IR* s; g_a = nondet_int(); g_b = nondet_int(); K_get_subset_num(s); }
+void h_K_randomly_permute_subset_order(void) { struct IR* s; struct IVEC* o; g_a = nondet_int(); g_val = nondet_int(); K_randomly_permute_subset_order(s, o); }
+void h_K_get_subset_num(void) { struct IR* s; g_a = nondet_int(); g_b = nondet_int(); g_val = nondet_int(); K_get_subset_num(s); }
 
 /* find_basic is idempotent: its result is basic (a second application changes nothing and says so) */
 void h_lemma_idempotent(void)
